@@ -68,6 +68,27 @@ def run(ck, prog, tier, load):
                         r.add(f.rsplit(".", 1)[-1])
     S = sorted((w & r) - {"payload", "decoder", "encoder", "config"})
     ck.note("C02-a: Codec fields written on decode(Item): %s; read on encode(Item): %s; per-request slot set S = %s" % (sorted(w), sorted(r), S))
+    # whatever the encoder reads about "the request being answered" must be RECOMPUTED for every decoded request,
+    # not only ever switched on: the flags passed to MessageEncoder::encode by Codec::encode
+    enc_flags = set()
+    for bb, t in enc.calls(r"MessageEncoder(<T>)?::encode$"):
+        for a_ in t["args"]:
+            e_ = enc.op_expr(a_, 4)
+            if e_calls(e_, r"::contains$"):
+                enc_flags |= {k[1].split("::")[-1] for k in e_consts(e_) if k[1] and "codec" in k[1]}
+    ck.anchor("C02-a", len(enc_flags), 1, "codec flags passed to MessageEncoder::encode")
+    for fl_ in sorted(enc_flags):
+        sets = [bb for bb, t in dec.calls(r"codec::_::set$") if e_has_const(dec.op_expr(t["args"][1]), r"::%s$" % fl_) and dec.op_expr(t["args"][2], 4)[0] != "const"]
+        clears = [bb for bb, t in dec.calls(r"codec::_::remove$") if e_has_const(dec.op_expr(t["args"][1]), r"::%s$" % fl_)]
+        inserts = [bb for bb, t in dec.calls(r"codec::_::insert$") if e_has_const(dec.op_expr(t["args"][1]), r"::%s$" % fl_)]
+        if not (sets or clears or inserts):
+            continue  # not a per-request flag of decode
+        if fl_ == "STREAM" and not sets and not clears:
+            ck.ob("C02-a.flag-recomputed", "STREAM", True, dec, inserts[0] if inserts else None, "STREAM is switched on by an upgrade/CONNECT request, after which no further HTTP request is decoded on the connection (one-way by design)", nontrivial=False)
+            continue
+        ok = bool(item_rets) and dec.must_pass([0], item_rets, sets + clears)[0]
+        ck.ob("C02-a.flag-recomputed", fl_, ok, dec, (sets + clears + inserts)[0],
+              "Codec::decode recomputes the %s flag for every request it returns (flags.set(%s, cond) or a clear on every path): a flag that is only ever inserted makes every later response on the connection be framed as a reply to an earlier request" % (fl_, fl_))
     # decode-ahead: in poll_request, Codec::decode reachable again without an unconditional encode(Item)
     dsites = [bb for bb, t in preq.calls(r"Codec as tokio_util::codec::decoder::Decoder>::decode$")]
     ck.anchor("C02-a", len(dsites), 1, "Codec::decode in poll_request")
@@ -182,6 +203,32 @@ def run(ck, prog, tier, load):
                 tbl[code] = tgt[0]
     ck.anchor("C02-c", len(tbl), 5, "status comparisons in encode_headers")
 
+    # roles, not names: SKIP = the bool local of encode_headers that the header-copy closure captures and tests in
+    # its Content-Length / Transfer-Encoding arm; LENV = the BodySize local/parameter that selects the framing line
+    clo = [c for c in prog.with_closures(eh) if c is not eh]
+    SKIP = set()
+    len_arm_tests = {}
+    for c in clo:
+        for a in c.live:
+            br = c.branch(a)
+            if br and br[0][0] == "discr" and br[0][2] and br[0][2].endswith("StandardHeader"):
+                labs = {lab: tb for lab, tb in br[1] if isinstance(lab, str)}
+                for k in ("ContentLength", "TransferEncoding"):
+                    if k not in labs:
+                        continue
+                    for x in c.reach([labs[k]]):
+                        bx = c.branch(x)
+                        if not bx or bx[0][0] != "place":
+                            continue
+                        for p_ in bx[0][2]:
+                            up = prog.upvar(c, p_) if isinstance(p_, str) and p_.startswith(".^") else None
+                            if up and up[0] is eh and up[1][0] in ("var", "phi") and eh.lty(up[1][1]) == "bool":
+                                SKIP.add(up[1][1])
+                                len_arm_tests.setdefault(k, []).append(x)
+    ck.anchor("C02-c", len(SKIP), 1, "bool local of encode_headers tested by the header-copy closure in its length arms (skip flag)")
+    LENV = set(l for l in user_locals(eh, r"BodySize$", kinds=("var", "arg")))
+    ck.anchor("C02-c", len(LENV), 1, "BodySize local/parameter of encode_headers")
+
     def arm_effects(tb):
         sk = ln = None
         for bb in eh.reach([tb]):
@@ -190,11 +237,11 @@ def run(ck, prog, tier, load):
             for s in eh.stmts(bb):
                 if s["k"] != "=" or len(s["p"]) != 1:
                     continue
-                nm = eh.lname(s["p"][0])
+                l = s["p"][0]
                 e = eh.rv_expr(s["rv"], 3)
-                if nm == "skip_len" and e[0] == "const":
+                if l in SKIP and e[0] == "const":
                     sk = bool(e[2])
-                if nm == "length" and e[0] == "agg":
+                if l in LENV and e[0] == "agg":
                     ln = e[2].split("::")[-1]
         return sk, ln
 
@@ -203,8 +250,7 @@ def run(ck, prog, tier, load):
         ck.ob("C02-c.status-no-length-no-body", str(code), ok, eh, tbl.get(code), "status %d => skip_len = true, length = BodySize::None" % code)
     ok = 304 in tbl and arm_effects(tbl[304]) == (False, "None")
     ck.ob("C02-c.status-304", "304", ok, eh, tbl.get(304), "status 304 => user length header kept (skip_len = false), length = BodySize::None")
-    clo = [c for c in prog.with_closures(eh) if c is not eh]
-    ok_conn = ok_len = False
+    ok_conn = False
     for c in clo:
         for a in c.live:
             br = c.branch(a)
@@ -214,22 +260,25 @@ def run(ck, prog, tier, load):
                     # Connection arm returns without writing
                     r0 = c.reach([labs["Connection"]])
                     ok_conn = not any(is_call(c.term(x), r"write_data$|write_camel_case$") for x in r0 if c.dominates(labs["Connection"], x))
-                if "ContentLength" in labs and "TransferEncoding" in labs:
-                    ok_len = True
-                    for k in ("ContentLength", "TransferEncoding"):
-                        tb = labs[k]
-                        # the arm must test skip_len and return on true
-                        sw = [x for x in c.reach([tb]) if c.branch(x) and any(isinstance(p, str) and "skip_len" in p for p in (c.branch(x)[0][2] if c.branch(x)[0][0] == "place" else ()))]
-                        ok_len = ok_len and bool(sw)
+    # the length arms test the captured skip flag
+    ok_len = bool(len_arm_tests.get("ContentLength")) and bool(len_arm_tests.get("TransferEncoding"))
     ck.ob("C02-c.user-connection-skipped", "encode_headers", ok_conn, eh, None, "a user-supplied Connection header is never copied (the codec writes its own)")
     ck.ob("C02-c.user-length-skipped", "encode_headers", ok_len, eh, None, "user Content-Length / Transfer-Encoding are copied only when skip_len is false")
     me = prog.one(r"^actix_http::h1::encoder::MessageEncoder::encode$")
     ctors = [(bb, cname(t).split("::")[-1]) for bb, t in me.calls(r"^actix_http::h1::encoder::TransferEncoding::(length|chunked|eof|empty)$")]
     ck.anchor("C02-c", len(ctors), 4, "TransferEncoding constructors in MessageEncoder::encode")
+    # HEADP = the parameter of MessageEncoder::encode into which the server codec passes `flags.contains(HEAD)`
+    HEADP = set()
+    for b_, bb_, t_ in prog.callers(r"^actix_http::h1::encoder::MessageEncoder(<T>)?::encode$"):
+        for i_, a_ in enumerate(t_["args"]):
+            e_ = b_.op_expr(a_, 5)
+            if e_calls(e_, r"::contains$") and e_has_const(e_, r"::HEAD$"):
+                HEADP.add(i_ + 1)  # parameter i of the callee is local i+1
+    ck.anchor("C02-c", len(HEADP), 1, "parameter of MessageEncoder::encode that receives flags.contains(HEAD) from h1::Codec")
     for bb, k in ctors:
         if k == "empty":
             continue
-        g = guarded_by(me, bb, lambda c, lab: isinstance(lab, bool) and any(r[0] == "arg" and r[2] == "head" for r in e_roots(strip_not(c)[0])) and strip_not(c)[0][0] == "arg" and ((lab if strip_not(c)[1] else not lab) is False))[0]
+        g = guarded_by(me, bb, lambda c, lab: bool(bool_test(c, lab)) and bool_test(c, lab)[0][0] == "arg" and bool_test(c, lab)[0][1] in HEADP and bool_test(c, lab)[1] is False)[0]
         ck.ob("C02-c.head-has-no-body", "MessageEncoder::encode|%s" % k, g, me, bb, "TransferEncoding::%s only on the !head edge (HEAD responses get the empty encoder)" % k)
     # per status: assuming status == s, no body-carrying transfer encoder may be constructed
     def status_is(s):
@@ -348,6 +397,10 @@ def run(ck, prog, tier, load):
     fp = [bb for bb, t in up.calls(r"Framed.*::from_parts$")]
     ok = bool(takes) and bool(fw) and bool(fp) and all(e_calls(up.rv_expr(s["rv"], 4), r"core::mem::take$") and e_has_field(up.rv_expr(s["rv"], 4), WB) for bb, s in fw) and all(any(up.dominates(b1, f) for b1, s in fw) for f in fp)
     ck.ob("C02-e.upgrade-hands-over-write-buf", "upgrade", ok, up, fp[0] if fp else None, "on upgrade the not-yet-flushed response bytes (write_buf) are moved into the Framed handed to the upgrade service, not dropped")
+    # the write side: a response is put on the wire once (shared with C04: a duplicated or dropped stretch of the
+    # write buffer is also an interleaved / non-self-delimiting response stream)
+    from .c04 import flush_accounting
+    flush_accounting(ck, prog, "C02-f")
     # pipelined requests are answered in the order they were decoded: the queue is used strictly first-in first-out
     qm = method_calls_on_field(prog, r"\.actix_http::h1::dispatcher::(InnerDispatcher|__InnerDispatcherProjection|_::__InnerDispatcherProjection|[A-Za-z_:]*Projection)\.messages$|InnerDispatcher[A-Za-z_]*\.messages$", ["actix_http"])
     ck.anchor("C02-e", len([1 for q in qm if q[3] == "push_back"]), 1, "messages.push_back in the h1 dispatcher")
